@@ -31,6 +31,7 @@ from fractions import Fraction
 
 from .. import protocols
 from ..harness import arr, index, integer, scalar
+from .. import tq
 from ..interp import State
 from ..terms import Dim, T, Term, V, vconst
 
@@ -156,7 +157,7 @@ def check(ctx):
                 ctx.ob("R-SIBLING", f"{where.split('.')[-1]} passes (cell, grid, grid[i], grid weights) to _local_population [{cfg}]", not bad, f"{bad[:2]}", site, cfg)
             # grid weights come from the assignment accumulator with the normalised descriptor weights
             t = repr(gw.term)
-            ctx.ob("R-ASSIGN", f"grid weights = assignment accumulator over the descriptors with their normalised weights [{cfg}]", gw.term.op == "loop" and "descriptors" in t and "weights" in t, t[:160], site, cfg)
+            ctx.ob("R-ASSIGN", f"grid weights = assignment accumulator over the descriptors with their normalised weights [{cfg}]", gw.term.op == "loop" and tq.has_sym(gw.term, "descriptors") and tq.has_sym(gw.term, "weights"), t[:160], site, cfg)
             ctx.ob("R-SELF", f"fit returns self [{cfg}]", r.kind == "obj" and r.obj is o.obj, f"{r!r}", site, cfg, nontrivial=False)
     # ---- bandwidth formula -------------------------------------------------------------------------------
     def cov_stub(interp, clo, args, kw, st_, node):
@@ -207,10 +208,10 @@ def check(ctx):
     o = ctx.bare_object(I, st, cls, {"descriptors": arr("descriptors", "D", "F", inp=False), "bandwidth_": bw, "fitted_": True, "_bandwidth_inv_": vconst(None), "_normkernels_": vconst(None)})
     nkv = I.getattr_obj(o, "_normkernels", st) if False else ctx._run(I, st, lambda: I.getattr_obj(o, "_normkernels", st))
     t = repr(nkv.term)
-    ok = "logdet" in t and "log(" in t and "pi" in t and "dim(F)" in t
+    ok = tq.has_op(nkv.term, "logdet") and tq.has_op(nkv.term, "log") and tq.has_sym(nkv.term, "pi") and tq.has_size(nkv.term, "F")
     ctx.ob("NF-MIXTURE", "normkernel_j = D log(2 pi) + logdet(H_j)", ok, t[:200], ctx.site(cls.methods["_normkernels"]))
     biv = ctx._run(I, st, lambda: I.getattr_obj(o, "_bandwidth_inv", st))
-    ctx.ob("NF-MIXTURE", "precision_j = inverse of bandwidth_j, paired by index", "inv(" in repr(biv.term) and "bandwidth" in repr(biv.term), repr(biv.term)[:160], ctx.site(cls.methods["_bandwidth_inv"]))
+    ctx.ob("NF-MIXTURE", "precision_j = inverse of bandwidth_j, paired by index", tq.has_op(biv.term, "inv") and tq.has_sym(biv.term, "bandwidth"), repr(biv.term)[:160], ctx.site(cls.methods["_bandwidth_inv"]))
 
 
 def _no_raise(term, node, interp):
